@@ -181,17 +181,10 @@ func (c *ConsistentHash) Remove(ep endpoint.Endpoint) error {
 		return fmt.Errorf("consistenthash: endpoint %+v already removed", ep)
 	}
 	delete(c.mapValues, ep.HashKey())
-	weight := c.weight(ep.Weight)
-	for i := 0; i < weight; i++ {
-		virtualHost := fmt.Sprintf("%s_%d", ep.HashKey(), i)
-		if c.hash.GetHashType() == KetamaHash {
-			p := md5.Sum([]byte(virtualHost))
-			for k := 0; k < 4; k++ {
-				virtualKey := uint32(p[4*k+3]&0xFF)<<24 | uint32(p[4*k+2]&0xFF)<<16 | uint32(p[4*k+1]&0xFF)<<8 | uint32(p[4*k+0]&0xFF)
-				delete(c.hashRing, virtualKey)
-			}
-		} else {
-			virtualKey := c.hash.Hash(virtualHost)
+	// drop every virtual node this host owns; recomputing them from ep.Weight would leave nodes
+	// behind when the endpoint was added with another weight
+	for virtualKey, owner := range c.hashRing {
+		if owner.HashKey() == ep.HashKey() {
 			delete(c.hashRing, virtualKey)
 		}
 	}
